@@ -37,6 +37,8 @@ def run(ctx):
     r3_export_order(ctx, g, flows)
     r4_separators(ctx)
     check_nullish_tables(ctx, 'R5')
+    from . import c03 as _c03
+    _c03.check_duration_figure(ctx, 'R3')       # a figure rewritten on import is rewritten again by the next import
     # every token reaches the text through the tokenizer of the requested encoding (no raw-text bypass): canonical order and
     # de-duplication are properties of that path
     from . import c04
@@ -84,7 +86,9 @@ def key_facts(ctx, key, fi):
     names = {n.id for n in ast.walk(body) if isinstance(n, ast.Name)}
     elem_only = names <= {p}
     attrs = [src(n) for n in ast.walk(body) if isinstance(n, ast.Attribute)]
-    enc = any(a == f'{p}.encoding' for a in attrs)
+    # the encoding itself is a component of the key (a function of it - upper(), [0], len() - maps different signifiers to one key)
+    comps = list(body.elts) if isinstance(body, ast.Tuple) else [body]
+    enc = any(src(c_) == f'{p}.encoding' for c_ in comps)
     cat = any(a.startswith(f'{p}.category') for a in attrs)
     first = body.elts[0] if isinstance(body, ast.Tuple) and body.elts else body
     primary = src(first).startswith(f'{p}.category')
